@@ -15,9 +15,10 @@
 (* A hierarchy H is a record of sequences indexed by declaration 1..H.n in *)
 (* pre-order: par (0 = the artificial root), grp, nm (name a non-group     *)
 (* declaration matches), mn, mx (INF = unbounded), and tgt (the target).   *)
-(* Units of the input are names; a non-group declaration consumes exactly  *)
-(* one unit whose name equals its own.  (Multi-line units of csv2 /        *)
-(* fixedlength2 are specified in FlatLines.)                               *)
+(* Units of the input are names; a non-group declaration consumes one      *)
+(* unit whose name equals its own, or - the csv2 / fixedlength2 record     *)
+(* shapes - two consecutive units whatever their names (rows = 2), or a    *)
+(* header unit through the first footer unit (see Consumed).               *)
 (***************************************************************************)
 EXTENDS Integers, Sequences, FiniteSets, TLC
 
@@ -35,8 +36,24 @@ FirstLeaf(H, d) ==
   IF ~H.grp[d] THEN d
   ELSE IF Kids(H, d) = <<>> THEN 0 ELSE FirstLeaf(H, Kids(H, d)[1])
 
+\* How a non-group declaration matches units (csv2 / fixedlength2 record shapes; EDI has "name" only):
+\*   "name"  one unit whose name is nm[d]                       (header without footer; an EDI segment)
+\*   "rows2" any two consecutive units                          (rows-based record, rows = 2: a wildcard)
+\*   "hf"    a unit named nm[d] through the first following unit named "Z" (header ... footer span)
+\* Consumed = number of units one instance takes at pos, 0 = no match.  A rows-based record with fewer
+\* units left and a header without a footer before the end of input do not match (the lines stay buffered).
+MkOf(H, d) == IF "mk" \in DOMAIN H THEN H.mk[d] ELSE "name"
+FooterName == "Z"
+Consumed(H, in, d, pos) ==
+  IF pos > Len(in) THEN 0
+  ELSE CASE MkOf(H, d) = "name"  -> IF in[pos] = H.nm[d] THEN 1 ELSE 0
+         [] MkOf(H, d) = "rows2" -> IF pos + 1 <= Len(in) THEN 2 ELSE 0
+         [] MkOf(H, d) = "hf"    -> IF in[pos] # H.nm[d] THEN 0
+                                    ELSE LET js == {j \in pos..Len(in) : in[j] = FooterName}
+                                         IN IF js = {} THEN 0 ELSE (CHOOSE j \in js : \A k \in js : j <= k) - pos + 1
+
 MatchesAt(H, in, d, pos) ==
-  LET f == FirstLeaf(H, d) IN f # 0 /\ pos <= Len(in) /\ in[pos] = H.nm[f]
+  LET f == FirstLeaf(H, d) IN f # 0 /\ Consumed(H, in, f, pos) > 0
 
 Grp(H, d) == IF d = 0 THEN TRUE ELSE H.grp[d]
 Mn(H, d)  == IF d = 0 THEN 1 ELSE H.mn[d]
@@ -60,7 +77,7 @@ InitState(H) ==
   LET root == [d |-> 0, node |-> 1, cur |-> 0, occ |-> 0]
       ks == Kids(H, 0)
   IN [stack |-> IF ks = <<>> THEN <<root>> ELSE <<root, [d |-> ks[1], node |-> 0, cur |-> 0, occ |-> 0]>>,
-      pos |-> 1, target |-> 0, nodes |-> <<[d |-> 0, u |-> 0, par |-> 0]>>, gone |-> {},
+      pos |-> 1, target |-> 0, nodes |-> <<[d |-> 0, u |-> 0, n |-> 0, par |-> 0]>>, gone |-> {},
       out |-> <<>>, status |-> "run", errd |-> 0, panic |-> ""]
 
 Top(s) == s.stack[Len(s.stack)]
@@ -121,7 +138,7 @@ Step(H, in, s) ==
          \* edi/reader.go:263-291: the artificial root is itself matched through its first child, so the
          \* top-level declarations start over ("multiple root level segments" is a repository test).
          IF H.edi /\ Kids(H, 0) # <<>> /\ MatchesAt(H, in, Kids(H, 0)[1], s.pos)
-           THEN Push([s EXCEPT !.nodes = Append(@, [d |-> 0, u |-> 0, par |-> 0]),
+           THEN Push([s EXCEPT !.nodes = Append(@, [d |-> 0, u |-> 0, n |-> 0, par |-> 0]),
                                !.stack[1].node = Len(s.nodes) + 1], Kids(H, 0)[1])
            ELSE [s EXCEPT !.status = "unexpected"]
   ELSE LET n == Len(s.stack)
@@ -130,8 +147,9 @@ Step(H, in, s) ==
           ELSE LET leaf == ~Grp(H, d)
                    pn   == s.stack[n - 1].node
                    id   == Len(s.nodes) + 1
-                   s1   == [s EXCEPT !.nodes = Append(@, [d |-> d, u |-> IF leaf THEN s.pos ELSE 0, par |-> pn]),
-                                     !.pos = IF leaf THEN @ + 1 ELSE @,
+                   cn   == IF leaf THEN Consumed(H, in, d, s.pos) ELSE 0
+                   s1   == [s EXCEPT !.nodes = Append(@, [d |-> d, u |-> IF leaf THEN s.pos ELSE 0, n |-> cn, par |-> pn]),
+                                     !.pos = @ + cn,
                                      !.stack[n].node = id,
                                      !.panic = IF pn = 0 \/ pn \in s.gone THEN "AddChild to a nil/released parent" ELSE @]
                IN IF Kids(H, d) # <<>> THEN Push(s1, Kids(H, d)[1]) ELSE RecDone(H, s1)
@@ -151,7 +169,7 @@ RECURSIVE RefSeq(_, _, _, _, _, _), RefRepeat(_, _, _, _, _, _), RefInst(_, _, _
 RefInst(H, in, d, pos, depth) ==
   LET leaf == ~H.grp[d]
       self == <<d, IF leaf THEN pos ELSE 0, depth>>
-      r    == RefSeq(H, in, Kids(H, d), 1, IF leaf THEN pos + 1 ELSE pos, depth + 1)
+      r    == RefSeq(H, in, Kids(H, d), 1, IF leaf THEN pos + Consumed(H, in, d, pos) ELSE pos, depth + 1)
       toks == <<self>> \o r.toks
   IN IF ~r.ok THEN [r EXCEPT !.toks = toks]
      ELSE [ok |-> TRUE, pos |-> r.pos, toks |-> toks,
